@@ -45,7 +45,7 @@ Section Doc.
       cbn [fst snd] in E3.
       rewrite Ecut, (collect_id ct _ (si_sok _ _ _ _ _ _ _ _ _ C)), with_st_id in E3. exact E3. }
     split; [exact E3|]. split.
-    - destruct C as [Csok Cattr Cheld Cdom Creg CrR Ckeys Cdecl CkR Ccplx]. constructor.
+    - destruct C as [Csok Cattr Cheld Cdom Creg CrR Ckeys Cdecl CkR Ccplx Crot]. constructor.
       + exact Csok.
       + exact Cattr.
       + exact Cheld.
@@ -57,6 +57,7 @@ Section Doc.
       + intros j Hj. destruct (CkR j Hj) as [ri [H1 H2]]. exists ri. split; [apply in_or_app; left; exact H1 | exact H2].
       + intros n0 names0 sst0 Hin. rewrite decl_cplx_snoc in Hin. cbn [cplx_entry] in Hin. rewrite app_nil_r in Hin.
         destruct (Ccplx n0 names0 sst0 Hin) as [conc Hb]. exists conc. exact Hb.
+      + exact Crot.
     - intros s Hs. apply in_app_or in Hs. destruct Hs as [Hs|[<-|[]]]; [|exact Logic.I].
       apply built_add_other. apply B. exact Hs.
   Qed.
@@ -225,6 +226,7 @@ Section Doc.
     - intros x l [].
     - intros j [].
     - intros n0 names0 sst0 [].
+    - intros n0 i0 o0 H. discriminate.
   Qed.
 
   (* what read_pil returns: every statement has built its objects, and nothing else is in the result *)
